@@ -218,13 +218,23 @@ def restore_rule(repo: Repo, rep, P: str):
 
 
 # -------------------------------------------------------------------------------------- R3
-def _is_open_call(e: ast.AST) -> bool:
+def _is_open_call(e: ast.AST, openers: Set[str] = frozenset()) -> bool:
     for n in ast.walk(e):
         if isinstance(n, ast.Call):
             f = norm(n.func)
-            if f == "open" or f.endswith(".open") or f in ("io.open", "os.fdopen"):
+            if f == "open" or f.endswith(".open") or f in ("io.open", "os.fdopen") or f in openers:
                 return True
     return False
+
+
+def _opener_helpers(sf) -> Dict[str, ast.FunctionDef]:
+    """Module-level functions that open a file themselves (and hand it to their caller)."""
+    out = {}
+    for st in sf.tree.body:
+        if isinstance(st, ast.FunctionDef) and st.name != "read_sunvox_file" \
+                and any(_is_open_call(x) for x in walk_no_nested(st) if isinstance(x, ast.Call)):
+            out[st.name] = st
+    return out
 
 
 def file_typestate(repo: Repo, rep, P: str):
@@ -233,10 +243,25 @@ def file_typestate(repo: Repo, rep, P: str):
     construct = f"{sf.rel}:read_sunvox_file"
     rep.func("rv.readers.reader.read_sunvox_file")
     g = CFG(fn)
+    helpers = _opener_helpers(sf)
+    openers = set(helpers)
+    for hname, h in helpers.items():
+        hg = CFG(h)
+        hcon = f"{sf.rel}:{hname}"
+        rep.func(f"rv.readers.reader.{hname}")
+        hacq = [n for n in hg.nodes if n.kind == "stmt" and isinstance(n.ast, (ast.Assign, ast.Expr, ast.Return, ast.AugAssign))
+                and _is_open_call(n.ast)]
+        for a in hacq:
+            if isinstance(a.ast, ast.Return):
+                rep.ok(f"{P}.R3", hcon, a.text(), "opened file returned at once (ownership passes to the caller)")
+            elif isinstance(a.ast, ast.Assign) and len(a.ast.targets) == 1 and isinstance(a.ast.targets[0], ast.Name):
+                _typestate_one(rep, P, sf, hcon, hg, a, a.ast.targets[0].id, hands_over=True)
+            else:
+                rep.violation(f"{P}.R3", hcon, a.text(), "opened file is not bound to a local; it cannot be closed", f"{sf.rel}:{a.lineno}")
     # acquisitions outside with-items
     acq = [n for n in g.nodes if n.kind == "stmt" and isinstance(n.ast, (ast.Assign, ast.Expr, ast.Return, ast.AugAssign))
-           and _is_open_call(n.ast)]
-    with_acq = [n for n in g.nodes if n.kind == "with_enter" and any(_is_open_call(i.context_expr) for i in n.ast.items)]
+           and _is_open_call(n.ast, openers)]
+    with_acq = [n for n in g.nodes if n.kind == "with_enter" and any(_is_open_call(i.context_expr, openers) for i in n.ast.items)]
     rep.count("path_open_sites", len(acq) + len({id(n.ast) for n in with_acq}), 1)
     for n in with_acq:
         rep.ok(f"{P}.R3", construct, n.text(), "file opened as a with-item: released on every exit")
@@ -273,7 +298,7 @@ def _inside(outer: ast.AST, inner: ast.AST) -> bool:
     return any(n is inner for n in ast.walk(outer))
 
 
-def _typestate_one(rep, P, sf, construct, g: CFG, acq: Node, var: str):
+def _typestate_one(rep, P, sf, construct, g: CFG, acq: Node, var: str, hands_over: bool = False):
     """Resource bound to `var` at node `acq`; flags = boolean locals assigned constants."""
     State = Tuple[str, Tuple[Tuple[str, str], ...]]   # (res, flags)
 
@@ -316,6 +341,9 @@ def _typestate_one(rep, P, sf, construct, g: CFG, acq: Node, var: str):
                 elif is_close(s):
                     if res == "open":
                         res = "closed"
+                elif hands_over and isinstance(s, ast.Return) and isinstance(s.value, ast.Name) and s.value.id == var \
+                        and label != "exc" and res == "open":
+                    res = "handed-over"
                 out.add((res, flags))
             elif node.kind == "test":
                 e = node.ast
